@@ -562,10 +562,13 @@ class DateTime(Column):
                 value = datetime(value.year, value.month, value.day)
             else:
                 raise ValidationError("{0} '{1}' is not a datetime object".format(self.column_name, value))
-        epoch = datetime(1970, 1, 1, tzinfo=value.tzinfo)
-        offset = get_total_seconds(epoch.tzinfo.utcoffset(epoch)) if epoch.tzinfo else 0
-
-        return int((get_total_seconds(value - epoch) - offset) * 1000)
+        if value.tzinfo is not None:
+            # the instant, not the wall clock: the zone's offset at `value` (not at the epoch) applies
+            value = value.astimezone(timezone.utc).replace(tzinfo=None)
+        delta = value - datetime(1970, 1, 1)
+        microseconds = (delta.days * 86400 + delta.seconds) * 1000000 + delta.microseconds
+        # whole milliseconds, truncated toward zero like the core driver's timestamp encoding, in exact integer arithmetic
+        return microseconds // 1000 if microseconds >= 0 else -(-microseconds // 1000)
 
 
 class Date(Column):
